@@ -18,6 +18,7 @@ struct BsonB {
     static ojson wrap(const ojson& j) { if (j.is_object()) return j; ojson o(json_object_arg); o.insert_or_assign("root", j); return o; }
     static void encode(const ojson& j, std::vector<uint8_t>& out, uint64_t) { bson::encode_bson(wrap(j), out); }
     static void encode_stream(const ojson& j, std::ostream& os, uint64_t) { bson::encode_bson(wrap(j), os); }
+    static Outcome encoder_nest(int ckind, size_t depth, int limit) { auto opt = bson::bson_options{}.max_nesting_depth(limit); return encoder_nest_impl<bson::bson_bytes_encoder, std::vector<uint8_t>, bson::bson_options>(ckind, depth, opt, true); }
     static const char* const* seed_hex() {
         static const char* const s[] = {
             "0500000000",
